@@ -7,7 +7,7 @@
    All statements are for ALL sizes n, k, c, numbers of factors / blocks / repeats. *)
 From mathcomp Require Import all_ssreflect all_algebra.
 Require Import C04.Model C04.ProofsBridge C04.ProofsTri C04.ProofsChol C04.ProofsStruct C04.ProofsKron
-               C04.ProofsEig C04.ProofsBlock C04.ProofsAlg C04.ProofsCholFactor C04.ProofsSound C04.ProofsSelect C04.ProofsKronTri C04.ProofsEigKron C04.ProofsJitter C04.ProofsFactor C04.ProofsKronDiag C04.ProofsAll.
+               C04.ProofsEig C04.ProofsBlock C04.ProofsAlg C04.ProofsCholFactor C04.ProofsSound C04.ProofsSelect C04.ProofsKronTri C04.ProofsEigKron C04.ProofsJitter C04.ProofsFactor C04.ProofsKronDiag C04.ProofsSumKron C04.ProofsAll.
 Set Implicit Arguments.
 Unset Strict Implicit.
 Unset Printing Implicit Defensive.
@@ -313,11 +313,32 @@ split=> //; split=> //=.
   by rewrite /rsq1 sqrtr1 divr1 mulr1.
 Qed.
 
+(* SumKroneckerLinearOperator._solve with exact inverse roots, ANY number of factors: per Kronecker position (record skf: size, entries
+   of A_i and C_i, root R_i, oracle Q_i, w_i) R_i^T C_i R_i = I and R_i^T A_i R_i = Q_i diag(w_i) Q_i^T, shifted eigenvalues positive ==>
+   (kron A_i + kron C_i) * sumkron_apply = rhs   (x = (kron R_i) (S + I)^-1 (kron R_i)^T b, the inner solve by the eigen-shift, sigma = 1) *)
+Theorem C04_sumkron_apply_correct (ps : seq (skf F)) c (X : cols F) col :
+  all_sk ps -> (0 < c)%N -> (col < c)%N ->
+  let N := prodm (map (@qfac F) (es_of ps)) in
+  let Ab : 'M[F]_N := \matrix_(I, J) kron (As_of ps) I J in
+  let Cb : 'M[F]_N := \matrix_(I, J) kron (Cs_of ps) I J in
+  let Wb : 'rV[F]_N := \row_J vget RA (kron_evals RA (map snd (es_of ps))) J in
+  (forall J : 'I_N, 0 < Wb 0 J + 1) ->
+  (Ab + Cb) *m cv_of (@rsq F) (@rlt F) N (nth [::] (sumkron_apply RA (map (fun p => (skm p, skR p)) ps) (es_of ps) c X) col)
+  = cv_of (@rsq F) (@rlt F) N (nth [::] X col).
+Proof. exact: sumkron_apply_correct. Qed.
+
+(* the inverse root root_inv_decomposition(method="cholesky") computes - (L^-1)^T by substitution against the identity, 1/sqrt for
+   size 1 - satisfies R^T C R = I for a symmetric C whose plain Cholesky succeeds (all sizes) *)
+Theorem C04_inv_root_correct m (C : mat F) : (0 < m)%N -> symmetric m C -> (m = 1%N -> 0 < get RA C 0 0) -> chol_ok m C ->
+  (mx_of (@rsq F) (@rlt F) m m (inv_root_spec m C))^T *m mx_of (@rsq F) (@rlt F) m m C *m mx_of (@rsq F) (@rlt F) m m (inv_root_spec m C) = 1%:M.
+Proof. exact: inv_root_spec_ok. Qed.
+
 (* ======================================================================================================
    THE ALGORITHM OVER EVERY MODELLED POSITIVE-DEFINITE CLASS, AT ANY NESTING DEPTH.
    wfpd o (ProofsAll.v) : o is a tree of Dense-like / AddedDiag / Diag (positive) / Identity / Chol / LowRankRootAddedDiag leaves
    under Kron (any number of factors), KronAddedDiag (general, constant, or Kronecker-structured diagonal with constant /
-   general factors; the structured ones with the eigh oracle's specification per factor), BlockDiag / BlockInterleaved (any number of blocks of one class) and BatchRepeat, every dense
+   general factors; the structured ones with the eigh oracle's specification per factor), SumKron (structured route with exact
+   inverse roots, i.e. every factor within max_cholesky_size; with a Lanczos root the route has no value), BlockDiag / BlockInterleaved (any number of blocks of one class) and BatchRepeat, every dense
    matrix that gets factorised being symmetric with a successful plain Cholesky (numerically PD).
    For EVERY settings record, whatever select_solve picks at every level (Cholesky of the dense matrix, one Cholesky per Kronecker
    factor + two sweeps, per-factor solves through the rotation, eigen-shift, Woodbury, block-wise solves with the base's _solve,
